@@ -12,7 +12,7 @@ LEVEL_TEXT = (
     'created inside the per-thread iteration; recursion continues on the branch copies). The iff - '
     'that the search accepts exactly the linearizable histories - is NOT decided.')
 
-FLOORS = {'C08-R1': 9, 'C08-R3': 10, 'C08-R4': 1}
+FLOORS = {'C08-R1': 9, 'C08-R3': 10, 'C08-R4': 2}
 
 
 def run(ctx):
@@ -28,3 +28,4 @@ def run(ctx):
                       'depend on every input (object state, remaining history, in-flight operations)')
     with ctx.rule('C08-R4', T.LIN):
         T.search_is_pure_or_memo_complete(ctx, F, T.LIN, 'C08-R4')
+        T.candidates_are_independent(ctx, F, T.LIN, 'C08-R4')
